@@ -153,6 +153,16 @@ def matcher(R, ctx):
 STABLE_SORTS = r'slice::<impl \[T\]>::(sort|sort_by|sort_by_key|sort_by_cached_key)$'
 
 
+def sort_fn(ctx):
+    """the function that sorts a vector of module filters (whatever it is called: trait method, free function)"""
+    f = ctx.f
+    c = [b for b in f.fn_bodies() if b.kind != 'Closure' and any(re.search(r'slice::<impl \[T\]>::sort\w*$', callee_name(t)) and
+                                                                  'ModuleFilter' in ' '.join(t['callee'].get('targs', []) or []) for _, t in b.calls())]
+    if len(c) != 1:
+        raise CheckError(f"R02.2: {len(c)} functions sorting a vector of ModuleFilter found (expected the one sort function): {[x.path for x in c]}")
+    return c[0]
+
+
 def _name_len(x, params):
     """x = length of the module name of one of the comparator's parameters (0 for the default entry)?  -> ('len', param) | ('const', n) | None"""
     x = T.strip_refs(x)
@@ -168,7 +178,7 @@ def _name_len(x, params):
 
 def sorting(R, ctx):
     f, cg = ctx.f, ctx.cg
-    b = ctx.body(r'as log_specification::LevelSort>::level_sort$')
+    b = sort_fn(ctx)
     sorts = [(bb, callee_name(t), t) for bb, t in b.calls() if re.search(r'::sort\w*$', callee_name(t))]
     stable = len(sorts) == 1 and re.search(STABLE_SORTS, sorts[0][1]) is not None
     R.check('R02.2', 'level_sort|stable', stable, "one stable slice sort",
@@ -229,7 +239,7 @@ def sorting(R, ctx):
         p = ctx.ip.prov(body.path)
         roots = p.op_roots(op)
         for r_ in roots:
-            if r_[0] == 'call' and (r_[1].endswith('level_sort') or r_[1].endswith('into_vec_module_filter')):
+            if r_[0] == 'call' and (r_[1] == b.path or (r_[1] in f.bodies and b.path in cg.reachable([r_[1]], spawn=False) and 'ModuleFilter' in (f.bodies[r_[1]].sig or ''))):
                 return True, 'level_sort'
         if any(r_[0] == 'param' for r_ in roots) and body.path.endswith('update_from'):
             return True, 'other specification'
@@ -331,18 +341,21 @@ def global_gate(R, ctx):
         R.check('R02.4', f"{b.path}|level-from-spec", okl, "level <= spec.max_level()", f"the level set by build does not derive from the specification's max_level() ({sorted(map(str, roots))[:4]})", where=b.loc(bb))
     # the fold over the writers
     fold = None
+    store = 'logger_handle::WritersHandle::set_new_spec'
     for x in f.fn_bodies():
-        if x.path.startswith('logger_handle::WritersHandle::') and x.kind != 'Closure' and \
+        # the function (method or free function) that asks the writers, used where the specification is stored
+        if x.kind != 'Closure' and x.path.startswith('logger_handle::') and x.path in cg.reachable([store], spawn=False) and \
                 any(callee_name(t).endswith('LogWriter::max_log_level') for (_, _, t) in calls_with_closures(f, x)):
             fold = x
-    if fold is None:
-        R.bad('R02.4', 'writers-fold', "no function of WritersHandle folds the writers' max_log_level() into the global level: a writer accepting more than the specification would never see its records", where=None)
-        return
     MLL = r'LogWriter::max_log_level$'
-    ok, why, n = max_over_all(ctx, fold, ['self', 'level'], [MLL],
+    # parameters by type: the level is the LevelFilter parameter, the other one carries the writers
+    an = ['level' if 'LevelFilter' in l['ty'] else 'self' for l in fold.locals[1:fold.arg_count + 1]]
+    if an.count('level') != 1:
+        raise CheckError(f"R02.4: {fold.path} has {an.count('level')} LevelFilter parameters")
+    ok, why, n = max_over_all(ctx, fold, an, [MLL],
                               base=lambda x: T.is_input(x, 'level'),
                               elem=lambda x, k: T.eff_indices(x, MLL) and len(T.eff_indices(x, NEXT)) <= 1,
-                              elem_of=lambda x, r: _writer_elem(x, r, MLL), source='other_writers')
+                              elem_of=lambda x, r: _writer_elem(x, r, MLL), source=lambda x: 'self' in T.inputs_in(x))
     R.check('R02.4', f"{fold.path}|max-over-all-writers", ok, f"max(given level, max_log_level() of every writer) on {n} rows",
             f"the global level is not max(spec level, every writer's max_log_level()): {why}", where=fold.loc())
     # used on build and on change: at every call of log::set_max_level the level derives from the fold over the writers
